@@ -129,17 +129,20 @@ func c05R1Verify(c *Ctx) {
 	} else {
 		c.OK(R, tn+"|trailing-data-probe", fn.Pos(), "Verify probes vr.base.R for end of stream")
 	}
-	// digest check
-	var dEdges []Edge
-	for _, call := range CallsTo(fn, "(digest.Verifier).Verified") {
-		if c05LoadPath(call.Common().Value) != recv+".verifier*" {
-			continue
+	// digest check: the true edge of vr.verifier.Verified(), in Verify or in a method of vr whose nil result implies it
+	dEdges := c05OwnerEventEdges(fn, fn.Params[0], func(g *ssa.Function, owner *ssa.Parameter) []Edge {
+		var out []Edge
+		for _, call := range CallsTo(g, "(digest.Verifier).Verified") {
+			if c05LoadPath(call.Common().Value) != "P:"+owner.Name()+".verifier*" {
+				continue
+			}
+			if v := call.Value(); v != nil {
+				te, _ := BoolTests(g, Aliases(v))
+				out = append(out, te...)
+			}
 		}
-		if v := call.Value(); v != nil {
-			te, _ := BoolTests(fn, Aliases(v))
-			dEdges = append(dEdges, te...)
-		}
-	}
+		return out
+	}, 0)
 	paths, ok := c05EnumPaths(fn, nil)
 	if !ok {
 		c.Undecided(R, tn+"|paths", fn.Pos(), "path budget exceeded")
@@ -271,6 +274,45 @@ func boolKeys(m map[string]token.Pos) map[string]bool {
 		o[k] = true
 	}
 	return o
+}
+
+// c05OwnerEventEdges: the edges of fn on which an event about `owner` (a
+// pointer parameter, e.g. the verify reader) is established: the direct edges,
+// plus the err==nil edges of calls to same-package helpers that receive the
+// owner and return a nil error only behind such an edge of their own.
+func c05OwnerEventEdges(fn *ssa.Function, owner *ssa.Parameter, direct func(g *ssa.Function, owner *ssa.Parameter) []Edge, depth int) []Edge {
+	out := direct(fn, owner)
+	if depth >= 3 {
+		return out
+	}
+	for _, call := range Calls(fn, func(string) bool { return true }) {
+		h := c05Helper(call, fn)
+		if h == nil || ErrResultIndex(h.Signature) < 0 {
+			continue
+		}
+		if _, isDefer := call.(*ssa.Defer); isDefer {
+			continue
+		}
+		for i, a := range call.Common().Args {
+			if strip(a) != ssa.Value(owner) || i >= len(h.Params) {
+				continue
+			}
+			sub := c05OwnerEventEdges(h, h.Params[i], direct, depth+1)
+			if len(sub) == 0 || c05DeferKeepsError(h) != "" {
+				continue
+			}
+			sound := true
+			for _, at := range c05MaybeNilAtoms(h) {
+				if !c05AtomMustPass(at, newCut().Edges(sub...)) {
+					sound = false
+				}
+			}
+			if sound {
+				out = append(out, c05NilEdgesOf(call)...)
+			}
+		}
+	}
+	return out
 }
 
 // c05ProbeEdges returns the edges of fn on which the stream satisfying
@@ -2287,11 +2329,15 @@ func c05R5(c *Ctx) {
 			continue
 		}
 		// the entry point and the same-package helpers it hands the descriptor to (depth <= 3)
+		// kind: what the designated parameter is — the descriptor ("desc"), its graph/CAS key
+		// descriptor.FromOCI(desc) ("key"), or its digest ("digest")
 		type job struct {
 			fn    *ssa.Function
 			depth int
+			kind  string
+			param *ssa.Parameter
 		}
-		work := []job{{fn0, 0}}
+		work := []job{{fn0, 0, "desc", c07DescParam(fn0)}}
 		done := map[*ssa.Function]bool{}
 		for len(work) > 0 {
 			j := work[0]
@@ -2302,10 +2348,33 @@ func c05R5(c *Ctx) {
 			done[j.fn] = true
 			fn := j.fn
 			tn := FnName(fn)
-			target := c07DescParam(fn)
-			isExists := fn.Signature.Results().Len() == 2 && types.Identical(fn.Signature.Results().At(0).Type(), types.Typ[types.Bool])
-			isTarget := func(v ssa.Value) bool { return c05DescSource(v) == target }
-			digestOfTarget := func(v ssa.Value) bool { return c05FieldOfParam(v, "Digest") == target }
+			target := j.param
+			isExists := fn.Signature.Results().Len() >= 1 && types.Identical(fn.Signature.Results().At(0).Type(), types.Typ[types.Bool])
+			isTarget := func(v ssa.Value) bool { return j.kind == "desc" && c05DescSource(v) == target }
+			keyOfTarget := func(v ssa.Value) bool {
+				if j.kind == "key" {
+					return c05Unspill(v) == ssa.Value(target) || c05ParamOf(v) == target
+				}
+				return j.kind == "desc" && c07IsKeyOf(v, func(x ssa.Value) bool { return c05ParamOf(x) == target })
+			}
+			digestOfTarget := func(v ssa.Value) bool {
+				if j.kind == "digest" {
+					return strip(v) == ssa.Value(target)
+				}
+				return c05FieldOfParam(v, "Digest") == target
+			}
+			// which role an argument plays for the callee
+			roleOf := func(a ssa.Value) string {
+				switch {
+				case c05IsOCIDescriptor(a.Type()) && isTarget(a):
+					return "desc"
+				case keyOfTarget(a):
+					return "key"
+				case digestOfTarget(a):
+					return "digest"
+				}
+				return ""
+			}
 			// answers forwarded from an inner store / published map for the same descriptor
 			forward := map[ssa.Value]bool{}
 			var evidence [][][]Edge // alternatives; within one alternative every group must be passed by a self-made positive answer
@@ -2316,20 +2385,18 @@ func c05R5(c *Ctx) {
 				n := CalleeName(call)
 				args := call.Common().Args
 				helperFwd := false
-				if h := c05Helper(call, fn); h != nil && j.depth < 3 && c07DescParam(h) != nil && ResultOf(call, 0) != nil &&
+				if h := c05Helper(call, fn); h != nil && j.depth < 3 && ResultOf(call, 0) != nil && h.Signature.Results().Len() >= 1 &&
 					types.Identical(h.Signature.Results().At(0).Type(), fn.Signature.Results().At(0).Type()) {
-					for _, a := range args {
-						if c05IsOCIDescriptor(a.Type()) && isTarget(a) {
+					for i, a := range args {
+						if k := roleOf(a); k != "" && i < len(h.Params) && !helperFwd {
 							helperFwd = true
+							work = append(work, job{h, j.depth + 1, k, h.Params[i]}) // the helper answers for the same content: it is held to the same rule
 						}
-					}
-					if helperFwd {
-						work = append(work, job{h, j.depth + 1}) // the helper answers for the same descriptor: it is held to the same rule
 					}
 				}
 				switch {
 				case helperFwd || strings.HasSuffix(n, ").Exists") || strings.HasSuffix(n, ").Fetch") || strings.HasSuffix(n, ").FetchCached"):
-					same := false
+					same := helperFwd
 					for _, a := range args {
 						if c05IsOCIDescriptor(a.Type()) && isTarget(a) {
 							same = true
@@ -2345,7 +2412,7 @@ func c05R5(c *Ctx) {
 						}
 					}
 				case n == "(*sync.Map).Load":
-					okKey := c07IsKeyOf(args[1], func(v ssa.Value) bool { return c05ParamOf(v) == target }) || digestOfTarget(args[1])
+					okKey := keyOfTarget(args[1]) || digestOfTarget(args[1])
 					published := c05IsFieldAddrOf(args[0], "~/internal/cas.Memory", "content") || c05IsFieldAddrOf(args[0], "~/content/file.Store", "digestToPath")
 					if okKey && published {
 						if okv := ResultOf(call, 1); okv != nil {
@@ -2389,18 +2456,8 @@ func c05R5(c *Ctx) {
 			}
 			// cas.Memory.Fetch builds a reader over the loaded bytes: any value is fine behind the ok edge
 			// name gate of the file store
-			var gate []Edge
-			hasGate := false
-			for _, call := range Calls(fn, func(string) bool { return true }) {
-				if g := StaticCallee(call); g != nil && fnPkgPath(g) == pkgPath("content/file") && len(c05FieldUses([]*ssa.Function{g}, "~/content/file.nameStatus", "exists")) > 0 && call.Value() != nil {
-					hasGate = true
-					te, _ := BoolTests(fn, Aliases(call.Value()))
-					gate = append(gate, te...)
-					nameArg := call.Common().Args[len(call.Common().Args)-1]
-					eq, _ := c05EqEdges(fn, func(v ssa.Value) bool { return SameValue(v, nameArg) }, func(v ssa.Value) bool { s, ok := constString(v); return ok && s == "" })
-					gate = append(gate, eq...)
-				}
-			}
+			gate := c05NameGateEdges(fn, 0)
+			hasGate := len(gate) > 0
 			if x.pkg == "content/file" && !hasGate {
 				c.Violation(R, tn+"|positive-answer-has-evidence", fn.Pos(), "the file store no longer consults the name status: content of a name whose push failed or never happened is reported as present")
 				continue
@@ -2466,6 +2523,100 @@ func c05R5(c *Ctx) {
 			c.Check(R, tn+"|positive-answer-has-evidence", fn.Pos(), ok, detail)
 		}
 	}
+}
+
+// c05NameGateEdges: the edges of fn (a function of the file store) on which
+// "the descriptor is unnamed, or its name is marked as existing" holds: the
+// true edge of a nameExists-role call (a function that reads
+// nameStatus.exists), the name=="" edge of its argument, and the matching
+// edge of a boolean helper result that implies the same.
+func c05NameGateEdges(fn *ssa.Function, depth int) []Edge {
+	if fnPkgPath(fn) != pkgPath("content/file") {
+		return nil
+	}
+	var gate []Edge
+	isGateCall := func(call ssa.CallInstruction) bool {
+		g := StaticCallee(call)
+		return g != nil && fnPkgPath(g) == pkgPath("content/file") && call.Value() != nil &&
+			g.Signature.Results().Len() == 1 && types.Identical(g.Signature.Results().At(0).Type(), types.Typ[types.Bool]) &&
+			len(c05FieldUses([]*ssa.Function{g}, "~/content/file.nameStatus", "exists")) > 0
+	}
+	for _, call := range Calls(fn, func(string) bool { return true }) {
+		if _, isDefer := call.(*ssa.Defer); isDefer {
+			continue
+		}
+		if isGateCall(call) {
+			te, _ := BoolTests(fn, Aliases(call.Value()))
+			gate = append(gate, te...)
+			nameArg := call.Common().Args[len(call.Common().Args)-1]
+			eq, _ := c05EqEdges(fn, func(v ssa.Value) bool { return SameValue(v, nameArg) }, func(v ssa.Value) bool { s, ok := constString(v); return ok && s == "" })
+			gate = append(gate, eq...)
+			continue
+		}
+		// a helper with a boolean result whose false (or true) value implies the gate
+		h := c05Helper(call, fn)
+		if h == nil || depth >= 2 {
+			continue
+		}
+		sub := c05NameGateEdges(h, depth+1)
+		if len(sub) == 0 {
+			continue
+		}
+		isGateVal := func(v ssa.Value) bool {
+			cc, ok := strip(v).(*ssa.Call)
+			return ok && isGateCall(cc)
+		}
+		for k := 0; k < h.Signature.Results().Len(); k++ {
+			if !types.Identical(h.Signature.Results().At(k).Type(), types.Typ[types.Bool]) {
+				continue
+			}
+			falseImplies, trueImplies := true, true
+			atoms := RetAtoms(h, k)
+			for _, a := range atoms {
+				passes := c05AtomMustPass(a, newCut().Edges(sub...))
+				switch v := a.Val.(type) {
+				case *ssa.Const:
+					isTrue := v.Value != nil && v.Value.String() == "true"
+					if isTrue && !passes {
+						trueImplies = false
+					}
+					if !isTrue && !passes {
+						falseImplies = false
+					}
+				default:
+					switch {
+					case isGateVal(a.Val): // r is x: r true => x true => gate; r false says nothing
+						if !passes {
+							falseImplies = false
+						}
+					case func() bool {
+						u, isNot := a.Val.(*ssa.UnOp)
+						return isNot && u.Op == token.NOT && isGateVal(u.X)
+					}(): // r is !x: r false => x true => gate; r true says nothing
+						if !passes {
+							trueImplies = false
+						}
+					default:
+						if !passes {
+							falseImplies, trueImplies = false, false
+						}
+					}
+				}
+			}
+			rk := ResultOf(call, k)
+			if rk == nil || len(atoms) == 0 {
+				continue
+			}
+			te, fe := BoolTests(fn, Aliases(rk))
+			if falseImplies {
+				gate = append(gate, fe...)
+			}
+			if trueImplies {
+				gate = append(gate, te...)
+			}
+		}
+	}
+	return gate
 }
 
 // ---------------------------------------------------------------- R5: absence is reported only for absence
